@@ -17,8 +17,8 @@ RULE = (
     "S: every run of the grammar {primary stream: 0-3 events as event documents or one event_page; internal keys x (float), "
     "s (string) and - with the normaliser - the reserved name `time`; 0-1 external key `img` (stream_resource + stream_datum) "
     "whose n frames arrive in every composition of n into 1-3 consecutive stream datums, at the end or interleaved with the "
-    "events; optional second stream `baseline` with 0-2 events around the primary ones} x batch_size in {0,1,2,10000} x "
-    "normaliser on/off (thorough: 780 runs - baseline in {none, 0, 2 events}, the reserved name without external key; quick: the 112-run sub-grammar n in {0, 2 events, 3 paged}, external none / "
+    "events; optional second stream `baseline` with 0-2 events around the primary ones; the primary descriptor issued a second time after k of n <= 3 events} x batch_size in {0,1,2,10000} x "
+    "normaliser on/off (thorough: 804 runs - baseline in {none, 0, 2 events}, the reserved name without external key; quick: the 128-run sub-grammar n in {0, 2 events, 3 paged}, external none / "
     "one datum / one datum per frame at the end, baseline none / 1 event, normaliser off+{x,s} / on+{x,s,time}); oracle after "
     "the stop: container metadata has the start and stop documents, per stream the `internal` table has one row per event in "
     "seq_num order with the event's time and values, the external array node exists and its leading length == total indices "
@@ -115,6 +115,7 @@ def cases(tier):
                     for batch in BATCHES:
                         for norm, reserved in ((False, False), (True, True)):
                             out.append({"n": n, "paged": paged, "ext": ext, "baseline": base, "batch": batch, "norm": norm, "reserved": reserved})
+        out.extend(_redesc_cases((3,)))
         return out
     for n in range(4):
         for paged in (False, True):
@@ -132,6 +133,18 @@ def cases(tier):
                             if reserved and ext is not None:
                                 continue  # the reserved name is combined with every event form / baseline / batch, not with every datum split
                             out.append({"n": n, "paged": paged, "ext": ext, "baseline": base, "batch": batch, "norm": norm, "reserved": reserved})
+    out.extend(_redesc_cases((2, 3)))
+    return out
+
+
+def _redesc_cases(ns):
+    """The primary descriptor is issued again (new uid, same stream) after k of the n events - what `configure` causes."""
+    out = []
+    for n in ns:
+        for k in range(1, n):
+            for batch in BATCHES:
+                for norm in (False, True):
+                    out.append({"n": n, "paged": False, "ext": None, "baseline": None, "batch": batch, "norm": norm, "reserved": False, "redesc": k})
     return out
 
 
@@ -227,6 +240,14 @@ def make_run(c, uid, root):
             docs.append(("event", e))
             while pending and pending[0]["indices"]["stop"] <= e["seq_num"]:
                 docs.append(("stream_datum", pending.pop(0)))
+    elif c.get("redesc"):
+        k = c["redesc"]
+        d2 = dict(docs[1][1], uid=f"{uid}-dp2", time=201.5)
+        for e in events[k:]:
+            e["descriptor"] = d2["uid"]
+        docs.extend(("event", e) for e in events[:k])
+        docs.append(("descriptor", d2))
+        docs.extend(("event", e) for e in events[k:])
     else:
         docs.extend(("event", e) for e in events)
         docs.extend(("stream_datum", d) for d in sdatums)
